@@ -840,7 +840,9 @@ func c09KeyInfoShapes(c *core.Ctx) {
 		{"certificate-element-empty", func(ki, sig *etree.Element) { ki.FindElement("./X509Data/X509Certificate").Child = nil }},
 		{"certificate-whitespace-only", func(ki, sig *etree.Element) { ki.FindElement("./X509Data/X509Certificate").SetText(" \n ") }},
 		{"certificate-not-base64", func(ki, sig *etree.Element) { ki.FindElement("./X509Data/X509Certificate").SetText("!!!") }},
-		{"certificate-base64-of-garbage", func(ki, sig *etree.Element) { ki.FindElement("./X509Data/X509Certificate").SetText(b64([]byte("not a certificate"))) }},
+		{"certificate-base64-of-garbage", func(ki, sig *etree.Element) {
+			ki.FindElement("./X509Data/X509Certificate").SetText(b64([]byte("not a certificate")))
+		}},
 		{"certificate-truncated", func(ki, sig *etree.Element) { ki.FindElement("./X509Data/X509Certificate").SetText(cert[:len(cert)/2]) }},
 		{"certificate-with-comment-child", func(ki, sig *etree.Element) {
 			x := ki.FindElement("./X509Data/X509Certificate")
@@ -853,13 +855,17 @@ func c09KeyInfoShapes(c *core.Ctx) {
 			x.Child = nil
 			x.CreateElement("ds:X").SetText(cert)
 		}},
-		{"two-certificates", func(ki, sig *etree.Element) { ki.FindElement("./X509Data").CreateElement("ds:X509Certificate").SetText(samlgen.Key("attacker").CertB64) }},
+		{"two-certificates", func(ki, sig *etree.Element) {
+			ki.FindElement("./X509Data").CreateElement("ds:X509Certificate").SetText(samlgen.Key("attacker").CertB64)
+		}},
 		{"two-certificates-first-empty", func(ki, sig *etree.Element) {
 			xd := ki.FindElement("./X509Data")
 			e := etree.NewElement("ds:X509Certificate")
 			xd.InsertChildAt(0, e)
 		}},
-		{"two-x509data", func(ki, sig *etree.Element) { ki.CreateElement("ds:X509Data").CreateElement("ds:X509Certificate").SetText(cert) }},
+		{"two-x509data", func(ki, sig *etree.Element) {
+			ki.CreateElement("ds:X509Data").CreateElement("ds:X509Certificate").SetText(cert)
+		}},
 		{"keyname-only", func(ki, sig *etree.Element) { ki.Child = nil; ki.CreateElement("ds:KeyName").SetText("idp") }},
 		{"rsakeyvalue-only", func(ki, sig *etree.Element) {
 			ki.Child = nil
@@ -875,7 +881,9 @@ func c09KeyInfoShapes(c *core.Ctx) {
 			is.CreateElement("ds:X509SerialNumber").SetText("1")
 		}},
 		{"two-keyinfo", func(ki, sig *etree.Element) { sig.AddChild(ki.Copy()) }},
-		{"certificate-is-attackers", func(ki, sig *etree.Element) { ki.FindElement("./X509Data/X509Certificate").SetText(samlgen.Key("attacker").CertB64) }},
+		{"certificate-is-attackers", func(ki, sig *etree.Element) {
+			ki.FindElement("./X509Data/X509Certificate").SetText(samlgen.Key("attacker").CertB64)
+		}},
 	}
 	trusts := []string{"meta1", "meta2", "metanouse", "fingerprint", "pinned", "metaenconly", "metaemptysign"}
 	sps := map[string]*saml.ServiceProvider{}
@@ -953,7 +961,11 @@ func c09KeyInfoShapes(c *core.Ctx) {
 func c09KeyPlacement(c *core.Ctx, sp *saml.ServiceProvider) {
 	c.Group("encrypted-assertion-key-placement")
 	ids := []string{samlgen.ReqID}
-	pt := samlgen.Doc(func() *etree.Element { a := samlgen.DefaultAssertion().Element(); samlgen.Sign(a, idp1(), ""); return a }())
+	pt := samlgen.Doc(func() *etree.Element {
+		a := samlgen.DefaultAssertion().Element()
+		samlgen.Sign(a, idp1(), "")
+		return a
+	}())
 	uris := []string{"#ek1", "", "#", "ek1", "#other", "#it's", "#'", "#\"", "#ek1'", "#key[1", "#a]b", "#[", "#]", "#ek1[@x='y']", "#//*", "#ek1 or 1=1", "#(", "#)", "#*", "#@", "#ek1/../x", "#\\", "#" + strings.Repeat("k", 5000), "#\u00e9\u4e2d", "##ek1", "#ek1#", "http://example.com/key#ek1", "#%27"}
 	ekIDs := []string{"ek1", "", "it's", "key[1", "a b"}
 	kt := xenc.KeyTransport{Alg: xenc.OAEPMGF1P, DigestURI: "http://www.w3.org/2000/09/xmldsig#sha1"}
